@@ -148,6 +148,7 @@ type State struct {
 	Model      map[string]uint64 // satisfies PC (nil = unknown)
 	RacyOnly   bool
 	Repl       map[string]Closure
+	Once       map[string]bool // sync.Once objects whose function has run
 	Eraser     bool
 	Acc        map[ObjID]accInfo
 	FreeChoices int
@@ -190,6 +191,12 @@ func (s *State) fork() *State {
 		c.Repl = make(map[string]Closure, len(s.Repl))
 		for k, v := range s.Repl {
 			c.Repl[k] = v
+		}
+	}
+	if s.Once != nil {
+		c.Once = make(map[string]bool, len(s.Once))
+		for k, v := range s.Once {
+			c.Once[k] = v
 		}
 	}
 	if s.Acc != nil {
